@@ -159,8 +159,47 @@ def failed_evaluation(kind="positive", seed=0):
     return fails
 
 
+def failed_save(seed=0):
+    """A save through ModelSaver raises (metadata with a key that save() reserves for this state type); the caller catches
+    the error and uses the same ModelSaver for another run: every scheduled checkpoint of that run is written and loads."""
+    from qucumber.callbacks import ModelSaver
+    from qucumber.nn_states import PositiveWaveFunction
+    rng = np.random.default_rng(seed)
+    torch.manual_seed(seed)
+    tmp = tempfile.mkdtemp(prefix="vf_c17s_")
+    fails = []
+    try:
+        sv = ModelSaver(1, tmp, "ck_{}.pt", save_initial=True, metadata={"unitary_dict": "my own note"})
+        cw = C.make_state("complex", 2, 2)
+        data = torch.tensor(rng.integers(0, 2, size=(4, 2)), dtype=torch.double)
+        try:
+            cw.fit(data, epochs=2, pos_batch_size=2, neg_batch_size=2, k=1, lr=0.01, input_bases=np.array([list("ZZ")] * 4), callbacks=[sv])
+            fails.append(("a reserved metadata key was accepted through ModelSaver", None))
+        except ValueError:
+            pass
+        pw = C.make_state("positive", 2, 2)
+        C.randomize(pw, rng)
+        pw.fit(data, epochs=3, pos_batch_size=2, neg_batch_size=2, k=1, lr=0.01, callbacks=[sv])
+        for nm in ("initial", 1, 2, 3):
+            pth = os.path.join(tmp, "ck_%s.pt" % nm)
+            if not os.path.exists(pth):
+                fails.append(("checkpoint not written by a ModelSaver that had a failed save before", "ck_%s.pt" % nm))
+        pth = os.path.join(tmp, "ck_3.pt")
+        if os.path.exists(pth):
+            back = PositiveWaveFunction.autoload(pth)
+            if not all(torch.equal(a, b) for a, b in zip(back.rbm_am.parameters(), pw.rbm_am.parameters())):
+                fails.append(("last checkpoint does not hold the trained parameters", None))
+    finally:
+        shutil.rmtree(tmp, ignore_errors=True)
+    return fails
+
+
 def native_check(quick=True):
     fails, n = [], 0
+    f = failed_save()
+    n += 1
+    if f:
+        fails.append((("failed save, ModelSaver reused",), f[:2]))
     for kind in ("positive", "complex"):
         f = failed_evaluation(kind)
         n += 1
